@@ -1,5 +1,5 @@
-From RsdnsModel Require Import Base Cursor RData Reader RecordSet.
-From RsdnsModel.Proofs Require Import CursorSafe Chase.
+From RsdnsModel Require Import Base Cursor Names Labels RData Reader RecordSet.
+From RsdnsModel.Proofs Require Import CursorSafe Chase FromMsg.
 From RsdnsModel.Properties Require Import C06.
 Open Scope N_scope.
 Check (C06_result_is_chain_end : forall msg ty rclass r fuel qname hs name ttl data,
@@ -22,4 +22,9 @@ Check (C06_always_terminates : forall msg ty rclass r,
   (forall rd, read_rdata msg ty rd <> None) -> cwf msg (r_cur r) ->
   forall fuel qname hs, cwf msg qname -> hs_wf msg hs -> (length hs < fuel)%nat ->
   defined (chase msg fuel ty r qname rclass hs)).
-Print Assumptions C06_result_is_chain_end. Print Assumptions C06_chain_end_is_returned. Print Assumptions C06_nothing_qualifies_is_noanswer. Print Assumptions C06_always_terminates.
+Check (C06_from_msg_is_chase : forall msg ty rs, from_msg msg ty = Ok rs ->
+  exists r qname hs name c',
+    Forall in_answer hs /\
+    chase msg (S (length hs)) ty r qname (rs_class rs) hs = Ok (name, rs_ttl rs, rs_data rs) /\
+    read_name msg Heap name = Ok (rs_name rs, c')).
+Print Assumptions C06_result_is_chain_end. Print Assumptions C06_chain_end_is_returned. Print Assumptions C06_nothing_qualifies_is_noanswer. Print Assumptions C06_always_terminates. Print Assumptions C06_from_msg_is_chase.
